@@ -22,12 +22,14 @@ class Terms:
     def place(self, pl, depth=None):
         depth = self.max_depth if depth is None else depth
         t = self.local(pl[0], depth)
+        # only the first field projection of the closure's own environment parameter selects a capture
+        env_base = self.body["dk"] == "Closure" and pl[0] == 1
         for pr in pl[1:]:
             if pr == "*":
                 continue
             if pr.startswith("."):
-                # closure environment: (*_1).i
-                if t == ("param", 1) and self.body["dk"] == "Closure":
+                if env_base:
+                    env_base = False
                     i = int(pr[1:])
                     if self.env is not None and i < len(self.env):
                         t = self.env[i]
@@ -90,6 +92,9 @@ class Terms:
 
     def call(self, t, depth):
         args = tuple(self.operand(a, depth) for a in t["args"])
+        if not args:
+            # constructors without arguments (Vec::new(), HashMap::default()): keep distinct objects distinct
+            return ("call", mir_callee(t) or "?", args, t.get("fg", ""), ("site", t.get("d", [0])[0]))
         return ("call", mir_callee(t) or "?", args, t.get("fg", ""))
 
     def rvalue(self, rv, depth):
